@@ -13,7 +13,8 @@ pub trait VRead: Sized {
     spec fn pos(&self) -> nat;
     /// representation invariant of the implementation
     spec fn wf(&self) -> bool;
-
+    /// number of errors this source has reported so far (ghost history: lets a contract say "the error did not come from below")
+    spec fn nerr(&self) -> nat;
 
     /// Read::read : any short read is allowed; Ok(0) only at end of stream (or empty buffer)
     fn read(&mut self, buf: &mut [u8]) -> (r: std::io::Result<usize>)
@@ -31,6 +32,8 @@ pub trait VRead: Sized {
             (r is Ok && r->Ok_0 == 0) ==> (old(buf)@.len() == 0 || rem_of(old(self).data().len(), old(self).pos()) == 0),
             //@label - vstream.read.err_keeps_pos
             r is Err ==> final(self).pos() == old(self).pos(),
+            //@label - vstream.read.err_counted
+            final(self).nerr() == old(self).nerr() + (if r is Err { 1nat } else { 0nat }),
     ;
 }
 
